@@ -170,6 +170,16 @@ def cases(shard, nshards, seed, tier):
         nt = rng.choice([1, 2, 3, 4, 6, 10, 30])
         st = gen2d.random_dotbracket(rng, n, nt)
         yield {"family": "dotbracket", "sequence": gen2d.seq_for(n, rng), "structure": st}
+    # every encoder output must stay lossless when the MILP back-end gives up
+    # (shared injection layer with C13): a few knotted structures x bad statuses
+    knotted = [(n, p) for name, n, p in gen2d.hostile() if name in ("H-type", "kissing", "triple-cross", "triangle-short-first", "pk-multiloop", "ladder5")]
+    for n, pairs in knotted:
+        for cfg in ("cbc", "highs", "none"):
+            for beh in ("raise", "notsolved", "infeasible", "unbounded", "undefined"):
+                if cfg == "none" and beh != "raise":
+                    continue
+                if mine():
+                    yield {"family": "solver-fault", "n": n, "pairs": pairs, "config": cfg, "behaviour": "ok" if cfg == "none" else beh}
     nms = 200 if tier == "quick" else 3000
     for i in range(nms):
         if not mine():
@@ -223,6 +233,20 @@ def run_case(case, rec):
         return
     n, pairs = case["n"], [tuple(p) for p in case["pairs"]]
     rec.mark_nontrivial(len(pairs) > 0)
+    if fam == "solver-fault":
+        from vmon.props import c13
+
+        b = mon2d.make_bpseq(n, pairs)
+        with c13._Inject(case["config"], case["behaviour"]) as inj:
+            for entry in ("getter", "convert"):
+                try:
+                    if entry == "getter":
+                        mon2d.make_bpseq(n, pairs).dot_bracket
+                    else:
+                        b.convert_to_dot_bracket(inj.explicit)
+                except Exception:
+                    pass  # recorded by the encoder monitors (crash rule)
+        return
     b = mon2d.make_bpseq(n, pairs, case.get("seq"))
     f = mon2d.facts(mon2d.snapshot(b))
     for attr in ("fcfs", "dot_bracket", "all_dot_brackets"):
